@@ -17,27 +17,44 @@ from common import sh2
 LEVEL = "other"
 MANIFEST = {
     "technique": "Coq proof of schedule independence from operation footprints + footprint table of the API ops tied to the code by "
-                 "(i) a go/types source-fact extractor re-run on every check (package-level variables and every function that can "
-                 "change them, fed to a vm_compute theorem), (ii) a differential check of the table's aliasing/mutation predictions "
-                 "against pointer-range and SHA-256 observations on the real objects, (iii) a -race / input-hash / result-equality "
-                 "harness running random op programs in 2-16 goroutines",
+                 "(i) go/types source-fact extractors re-run on every check and fed to vm_compute theorems: package-level variables and "
+                 "every function that can change them; a call graph (static, class-hierarchy, func-value-by-signature, callback edges) "
+                 "giving for every table operation and every exported function the package-level variables reachable from it; an "
+                 "interprocedural aliasing summary (who keeps views of a SliceReader buffer / of a []byte argument, who writes bytes "
+                 "reachable from an argument), (ii) a differential check of the table's aliasing/mutation predictions against "
+                 "pointer-range and SHA-256 observations on the real objects, (iii) a -race / input-hash / result-equality / "
+                 "independent-reference / history harness running random op programs in 2-16 goroutines with distinct keys",
     "level_text": "Proved for all interleavings (coq/c20/C20Theorems.v): if every op of a goroutine writes only its own cells and reads "
                   "only its own cells or shared read-only locations, every schedule is race-free, gives each goroutine its sequential "
                   "result (also at every prefix) and leaves globals and inputs unchanged (C20_schedule_independence, "
                   "C20_prefix_independence); the API footprint table satisfies that hypothesis for Reader-path programs and for "
                   "SliceReader programs that apply in-place operations only to payloads they own (C20_api_footprints, "
-                  "C20_api_schedule_independence); C20_sr_inplace_refuted / C20_sr_inplace_all_mutators: DecodeFileSR followed by "
-                  "DecryptSegment / EncryptFragment / ConvertSampleToByteStream writes the caller's shared input; C20_pkg_vars_ok: "
-                  "every writer of a package-level variable of bits/avc/hevc/sei/aac/av1/mp4 (facts regenerated from the sources on "
-                  "every run) is an initialiser, init, SetBoxDecoder or RemoveBoxDecoder, no sync/atomic/math-rand import. "
-                  "Only explored, not proved: that the real functions stay inside the tabulated footprints (correspondence on "
-                  "generated programs; race detector, input hashes and result equality on generated concurrent rounds).",
+                  "C20_api_schedule_independence); C20_inplace_guard_exact: for all arguments/goroutines/aliasing states an in-place "
+                  "operation writes its operand's payload location and the guard is exactly ownership of it; C20_sr_inplace_refuted / "
+                  "C20_sr_inplace_all_mutators: DecodeFileSR followed by DecryptSegment / EncryptFragment / ConvertSampleToByteStream "
+                  "writes the caller's shared input. On facts REGENERATED from the sources on every run: C20_pkg_vars_ok (every writer "
+                  "of a package-level variable of bits/avc/hevc/sei/aac/av1/mp4 is an initialiser, init, SetBoxDecoder or "
+                  "RemoveBoxDecoder; no sync/atomic/math-rand import); C20_api_reach_ok + C20_api_reach_covers (for every operation of "
+                  "the table, with all arguments: every package-level variable reachable through the call graph from the library "
+                  "functions behind it lies inside the Global cells the table gives the operation, is only ever changed by the allowed "
+                  "writers, and nothing is changed unless the operation is a registry mutator; the only exported functions from which "
+                  "any change of a package-level variable is reachable are SetBoxDecoder/RemoveBoxDecoder; every reachable "
+                  "package-level value of reference type - map, slice, pointer, chan, interface, struct holding one such as sync.Pool "
+                  "- is one of 14 audited ones); C20_alias_facts_ok (the 2 view-returning SliceReader methods, 61 decoders keeping "
+                  "views of the input, 28 exported view-returning functions and 20 (function, argument) in-place writers found in the "
+                  "sources are exactly inside the audited lists, each audited in-place writer is an in-place op of the table). "
+                  "Only explored, not proved: that the extractors' classification is complete (reflection, unsafe, assembly are outside "
+                  "it) and that the real functions stay inside the tabulated footprints for cells other than package-level variables "
+                  "(correspondence on generated programs; race detector, input hashes, result equality, independent AC-3 reference and "
+                  "history oracle on generated concurrent rounds).",
     "level_note": "A data race is a fact about the Go memory model and runtime; no Gallina model exhibits one, so the level is 'other', "
-                  "not 'proof'. Trusted: Coq kernel; the hand-written footprint table (coq/c20/C20Model.v part 2) and its granularity "
-                  "(one cell per object structure / payload / input buffer); the extractor's use classification (harness/c20/facts.go; "
-                  "nine hand-audited escapes of the uuid constants into UUID.Equal); the Go race detector (it does not see writes made "
-                  "by assembly such as AES-CTR/CBC, which is why the input-hash and result oracles exist); files with //go:build verif "
-                  "are not part of the analysed library.",
+                  "not 'proof'. Trusted: Coq kernel; the hand-written footprint table (coq/c20/C20Model.v part 2; its Global cells are now "
+                  "checked against the call graph) and its granularity (one cell per object structure / payload / input buffer); the "
+                  "extractors (harness/c20/facts.go use classification, reach.go call graph - an over-approximation except for "
+                  "reflection/unsafe/assembly -, alias.go flow- and field-insensitive summaries; closures' captured variables are not "
+                  "tracked) and the hand-audited lists they are compared with (nine escapes of the uuid constants, audited_shared, "
+                  "coq/c20/C20AliasAudit.v); the Go race detector (it does not see writes made by assembly such as AES-CTR/CBC, which "
+                  "is why the input-hash and result oracles exist); files with //go:build verif are not part of the analysed library.",
 }
 
 PKGVARS = os.path.join(common.COQ, "c20", "C20PkgVars.v")
@@ -190,6 +207,12 @@ def run(ctx):
         "pointer-range / SHA-256 observations on generated programs only",
         "source facts: harness/c20/facts.go (go/parser + go/types, standard library only) classifies every use of every "
         "package-level variable; nine escapes (uuid constants passed to UUID.Equal) are audited by hand in coq/c20/C20Facts.v",
+        "call graph: harness/c20/reach.go (static calls, interface calls by class hierarchy over the library's named types, calls through "
+        "func values by identical signature, function values, callbacks from the standard library by method name); reflection, unsafe and "
+        "assembly are not followed; audited_shared in coq/c20/C20Facts.v lists the 14 reachable package-level values of reference type",
+        "aliasing facts: harness/c20/alias.go (flow- and field-insensitive, closures' captured variables not tracked) compared with the "
+        "hand-audited lists of coq/c20/C20AliasAudit.v (61 SliceReader keepers, 28 views, 20 writers of argument bytes with their class)",
+        "independent AC-3 / E-AC-3 channel reference written from ETSI TS 102 366 tables in harness/c20/zoo.go",
         "Go race detector (ThreadSanitizer runtime), which does not instrument assembly; SHA-256 and digest comparison in the harness",
         "the Go memory model itself: 'footprint-disjoint implies race-free' is the standard DRF reading, not derived from the language spec",
     ]
@@ -310,10 +333,10 @@ def run(ctx):
         ctx.notes["recorded_finding_not_reproduced"] = True
         ctx.log("NOTE: the recorded finding (in-place op on SliceReader-decoded shared input) was not reproduced in this run")
     ctx.cov["rule"] = ("corr: %d generated sequential op programs (decode via Reader / SliceReader of ~50 shared inputs (clear and cenc/cbcs-protected init, media and init+media buffers for avc/hevc/aac; 8/16-byte per-sample IVs, 8/16-byte constant IVs, seig sample groups) or of own buffers, Info, "
-                       "Encode, EncodeSW, GetFullSamples, InitProtect+EncryptFragment cenc/cbcs, DecryptInit+DecryptSegment (init and media in one or in separate objects, any decode path for either; DecryptInfo own or shared between goroutines), NAL conversions), "
+                       "Encode, EncodeSW, GetFullSamples, InitProtect+EncryptFragment cenc/cbcs, DecryptInit+DecryptSegment (init and media in one or in separate objects, any decode path for either; DecryptInfo own or shared between goroutines), NAL conversions, AddCompatibleBrands/AddSampleData appends; inputs also 38 dac3/dec3/ac-3/ec-3 configurations and a greedy box-type cover of the repository's sample files), "
                        "after every op: aliasing of the target object by pointer range over every reachable []byte, byte comparison of every shared input with its pristine copy; "
                        "search: %d independent rounds of 2-16 goroutines (random start skew, Gosched injection) + %d rounds of the recorded "
-                       "scenario, oracles: race detector (%s), per-op and final digests vs the sequential run on private copies, input hashes; "
+                       "scenario; every 4th round: each goroutine decodes and inspects (Info, ChannelInfo, Encode) DIFFERENT AC-3/E-AC-3 boxes or zoo files; goroutine t uses key t%%3; oracles: race detector (%s), per-op and final digests vs the sequential run on private copies, input hashes, ChannelInfo vs tables written from the standard, first-seen result of every program prefix (history); "
                        "distinct = distinct program texts" % (n, nr, nk, "on" if race_ok else "NOT AVAILABLE"))
 
 
